@@ -8,6 +8,8 @@
 //!   <tid> at <site>     wait until it is held at <site>
 //!   <tid> free          let it run freely from now on
 //!   dispatch on|off     enable the yield point `vm.dispatch` (before every instruction of every thread)
+//!   hint                spawn a HOST thread (logical thread 7) that calls `interrupt()`; it is held at its first yield
+//!                       point (`ctl.interrupt.paused`), so `7 ctl.interrupt.state` stops it between its two stores
 //!   int                 call `ThreadStateController::interrupt()` on the engine's controller (from the scheduler)
 //!   wait <ms>           let everything that is not held run for <ms>
 //!   end <bound_ms>      release every thread and wait for the evaluation to return (at most <bound_ms>)
@@ -90,6 +92,7 @@ fn on_yield(site: &'static str, _key: usize) {
     }
     c.held = Some(site.to_string());
     c.stop_at = None;
+    c.go = false; // a `go` given while the thread was not held is stale
     s.cv.notify_all();
     while !c.go && !c.free {
         c = s.cv.wait(c).unwrap();
@@ -99,7 +102,7 @@ fn on_yield(site: &'static str, _key: usize) {
 }
 
 fn set_id(k: usize) {
-    if k > 0 && k < NT {
+    if k > 0 && k < NT - 1 {
         // a spawned thread is first held at a point where it is published: before the exit check of a safepoint
         let mut c = slots()[k].m.lock().unwrap();
         if c.stop_at.as_deref() == Some("*") {
@@ -111,6 +114,11 @@ fn set_id(k: usize) {
 
 fn mark() {
     on_yield("mark", 0);
+}
+
+/// Consume a pending unpark token of the calling thread (a thread's own `resume_threads()` unparks itself).
+fn drain_token() {
+    std::thread::park_timeout(Duration::from_millis(0));
 }
 
 fn mark2() {
@@ -196,6 +204,7 @@ fn main() {
     engine.register_fn("c15-id!", set_id);
     engine.register_fn("c15-mark!", mark);
     engine.register_fn("c15-mark2!", mark2);
+    engine.register_fn("c15-drain!", drain_token);
     let controller = engine.get_thread_state_controller();
     verif::reset();
     let _ = slots();
@@ -213,6 +222,14 @@ fn main() {
                     ["dispatch", v] => {
                         verif::DISPATCH_YIELD.store(*v == "on", Ordering::SeqCst);
                         emit(&format!("ok dispatch {v}"));
+                    }
+                    ["hint"] => {
+                        let c = controller.clone();
+                        std::thread::spawn(move || {
+                            set_id(7);
+                            c.interrupt();
+                        });
+                        emit("ok hint");
                     }
                     ["int"] => {
                         controller.interrupt();
